@@ -954,6 +954,12 @@ def campaign(build, tier, seed, report, budget=1):
     # -------- kernel level
     kc = kernel_cases(tier, rng, budget)
     kres = vlib.run_impl("props.c04", "impl_kernel", kc, workers=6, per_case_timeout=PER_CASE_TIMEOUT)
+    # a hang is re-run once on its own (a slow first JIT compilation on a loaded machine must not be mistaken for one)
+    khang = [i for i, r in enumerate(kres) if r.get("hang")]
+    if khang:
+        again = vlib.run_impl("props.c04", "impl_kernel", [kc[i] for i in khang], workers=6, per_case_timeout=4 * PER_CASE_TIMEOUT)
+        for i, r in zip(khang, again, strict=True):
+            kres[i] = r
     cov["wall_kernel_impl_s"] = round(time.time() - t0, 1)
     klits = [kernel_lit(c, r) for c, r in zip(kc, kres, strict=True)]
     for c, r in zip(kc, kres, strict=True):
@@ -990,7 +996,7 @@ def campaign(build, tier, seed, report, budget=1):
     # a hang is re-run once on its own (a slow first JIT compilation must not be mistaken for one)
     hang_idx = [i for i, r in enumerate(ares) if r.get("hang")]
     if hang_idx:
-        again = vlib.run_impl("props.c04", "impl_api", [ac[i] for i in hang_idx], workers=6, per_case_timeout=PER_CASE_TIMEOUT)
+        again = vlib.run_impl("props.c04", "impl_api", [ac[i] for i in hang_idx], workers=6, per_case_timeout=4 * PER_CASE_TIMEOUT)
         for i, r in zip(hang_idx, again, strict=True):
             ares[i] = r
     alits, owners = [], []
